@@ -17,6 +17,7 @@ package configmigrate
 //@   ensures others-kept-src: forall k string :: k != srcKey && k != dstKey ==> (k in src) == old(k in src) && src[k] == old(src[k])
 //@   ensures others-kept-dst: forall k string :: k != srcKey && k != dstKey ==> (k in dst) == old(k in dst) && dst[k] == old(dst[k])
 //@   ensures moved: err == nil && old(srcKey in src) && old(src[srcKey]) != nil ==> (dstKey in dst) && !(srcKey in src) || srcKey == dstKey
+//@   ensures typed-value-accepted: !old(srcKey in src) || old(src[srcKey]) == nil || typeIs(old(src[srcKey]), T) ==> err == nil
 //@ func moveSameVal(src yobj, dst yobj, key string) (err error)
 //@   inline
 
@@ -151,6 +152,7 @@ package configmigrate
 //@   requires diskConf != nil
 //@   modifies *
 //@   ensures stamped: ("schema_version" in diskConf) && diskConf["schema_version"] == int(15)
+//@   ensures interval-of-any-type: typeIs(old(diskConf["dns"]), yobj) && unbox(old(diskConf["dns"]), yobj) != nil && unbox(old(diskConf["dns"]), yobj) != diskConf && old("querylog_interval" in unbox(diskConf["dns"], yobj)) && old(unbox(diskConf["dns"], yobj)["querylog_interval"]) != nil && !old("querylog_enabled" in unbox(diskConf["dns"], yobj)) && !old("querylog_file_enabled" in unbox(diskConf["dns"], yobj)) && !old("querylog_size_memory" in unbox(diskConf["dns"], yobj)) ==> err == nil
 //@   loop 1 invariant ("schema_version" in diskConf) && diskConf["schema_version"] == int(15)
 //@   loop 2 invariant ("schema_version" in diskConf) && diskConf["schema_version"] == int(15)
 //@   loop 3 invariant ("schema_version" in diskConf) && diskConf["schema_version"] == int(15)
